@@ -22,7 +22,7 @@ CHECKS = {
         note="Stream lengths sampled (quick up to 40, thorough up to 600); end of stream as separate picture-less submission.",
         design="3.3-3.5, 4 (C03)"),
     "C04": dict(category="model_checking",
-        technique="TLC on Packetize.tla / SRMMC / EncDecSegMC (all interleavings of the synchronisation skeleton) + trace validation against Observe.tla of the same encode under seeded schedule perturbation of every lock/semaphore operation",
+        technique="TLC on Packetize.tla / SRMMC / EncDecSegMC (all interleavings of the synchronisation skeleton) + trace validation against Observe.tla of the same encode under seeded schedule perturbation of every lock/semaphore operation and with each of the 15 pipeline kernels in turn slowed down relative to all others",
         text="The design-level determinism (same delivered sequence for every completion order; exactly-once hand-off) is model-checked; byte identity of the real encoder under schedule variation is decided by Observe.tla over perturbed runs, each under a timeout (termination).",
         note="Real schedules are sampled, not enumerated.",
         design="4 (C04)"),
@@ -41,7 +41,7 @@ CHECKS = {
         text="Observation equality per output picture, same order and count, no decoder error.",
         note="Only streams the SVT encoder can produce (no independent encoder offline); libaom via hand-declared ABI.", design="4 (C08)"),
     "C09": dict(category="model_checking",
-        technique="TLA+ spec DecMT.tla (stage/row protocol, start flags, motion-field and end-of-frame barriers) checked exhaustively by TLC for 2-3 threads x 2-3 rows x 2 frames incl. liveness; real decoder bound observationally via Observe.tla (threads 1..8 under yield perturbation must equal the single-thread pictures; clean teardown)",
+        technique="TLA+ specs DecMT.tla (stage/row protocol, start flags, motion-field and end-of-frame barriers; 2-3 threads x 2-3 rows x 2 frames incl. liveness) and DecRowDeps.tla (data dependencies of row jobs across tile columns) checked exhaustively by TLC; real decoder bound observationally via Observe.tla (threads 1..8 under yield perturbation must equal the single-thread pictures, incl. streams with tile columns of unequal cost; clean teardown)",
         text="Each-row-once, stage ordering, no stale start flag, reset-behind-barrier and completion are invariants/liveness of DecMT.tla; the code is compared with it only through its outputs.",
         note="No per-row trace hooks in the decoder; C11 data races not judged; oversubscribed regime is a recorded finding.", design="3.7, 4 (C09)"),
     "C11": dict(category="exploration",
@@ -57,20 +57,20 @@ CHECKS = {
         text="The model statement is one line (InitHandle assigns every field); the enumeration fields x prefill patterns is complete for the listed patterns.",
         note="Padding not compared; prefill patterns sampled (zero, 0xFF, 0xAA, random, used).", design="4 (C13)"),
     "C14": dict(category="model_checking",
-        technique="TLA+ spec Api.tla (documented call protocol, NULL-argument variants, out-of-order calls, teardown); TLC enumerates the complete state graph; transition cover (one call program per abstract edge) replayed on the real library in separate processes",
+        technique="TLA+ specs Api.tla (encoder) and DecApi.tla (decoder): documented call protocol, NULL-argument variants, out-of-order calls, teardown; TLC enumerates the complete state graphs; transition cover (one call program per abstract edge) replayed on the real libraries in separate processes; long sessions (beyond every picture pool, 1/2/4 logical processors) validated against Session.tla",
         text="Every distinct (state, call, state') edge of the model is executed on the real encoder: outcome class must be allowed by the model, no crash, no call may fail to return, teardown afterwards must succeed.",
-        note="Encoder API; programs bounded by the abstraction (<= 2 pictures); 20 s per call counts as blocking.", design="3.6, 4 (C14)"),
+        note="Programs bounded by the abstraction (<= 2 pictures / temporal units) plus long sessions; a call counts as blocking only when the process is stuck (all threads asleep, no CPU used), see DESIGN 11.4; crash/hang observations are reported only if a re-run repeats them.", design="3.6, 4 (C14), 11"),
     "C15": dict(category="model_checking",
-        technique="Api.tla transition-cover programs + mid-stream teardown points + repeated sessions executed with a link-time resource ledger (malloc/mutex/semaphore/thread --wrap); teardown must return with an empty ledger and the original thread count",
+        technique="Api.tla and DecApi.tla transition-cover programs + mid-stream teardown points + repeated sessions executed with a link-time resource ledger (malloc/mutex/semaphore/thread --wrap); teardown must return with an empty ledger and the original thread count",
         text="Teardown is enabled from every state of the model; every program of the cover and a sweep of mid-stream points (pictures sent x policy x recon x lp) are torn down on the real library with exact resource accounting.",
-        note="Ledger sees the wrapped primitives only; decoder sessions are covered by C08/C09 teardown checks.", design="4 (C15)"),
+        note="Ledger sees the wrapped primitives only; decoder: every DecApi program with 1 and 3 threads.", design="4 (C15), 11"),
     "C16": dict(category="fault_enumeration",
-        technique="TLA+ spec CtorUnwind.tla (EB_NEW/EB_DELETE unwinding, all small object trees x fault positions) + fault enumeration on the real library: K-th fallible primitive fails during init_handle / set_parameter / init",
+        technique="TLA+ spec CtorUnwind.tla (EB_NEW/EB_DELETE unwinding, all small object trees x fault positions) + fault enumeration on the real libraries: K-th fallible primitive fails during init_handle / set_parameter / init (encoder) and dec_init_handle / dec_init / first dec_frame (decoder, 1 and 3 threads)",
         text="Single-fault enumeration by index of the failing primitive with call-site attribution; the call must report an error, teardown must return, ledger must be empty.",
-        note="Quick samples K (all K<=60, last 40, random 110 per call); thorough enumerates every K of set_parameter and init and 10% of init_handle.", design="4 (C16)"),
+        note="Quick: all K<=60, last 40, random 110 per call and -- site-directed -- three invocations (first, middle, last) of EVERY distinct call site of a fallible primitive; thorough enumerates every K of set_parameter and init and 10% of init_handle.", design="4 (C16), 11"),
     "C17": dict(category="model_checking",
         technique="TLA+ spec Instances.tla (encoder/decoder instances of one process + the process-global state the code shares between them: block-geometry tables, kernel dispatch pointers, the decoder allocation list); TLC decides NoInterference per population; real library bound through outputs: harness multi_record runs the instances of a group in one process and Observe.tla compares every instance item by item with its solo run",
-        text="Design level: all interleavings of init/encode/decode/teardown steps of 2-3 instances per population (same configuration, differing superblock size, differing cpu flags, two decoders, encoder+decoder); implementation level: sampled groups (pairs/triples, 8/10 bit, presets, asm levels, staggered starts) whose outputs must equal the solo outputs.",
+        text="Design level: all interleavings of init/encode/decode/teardown steps of 2-3 instances per population (same configuration, differing superblock size / cpu flags / process counts, concurrent or staggered init, two decoders, encoder+decoder); implementation level: sampled groups (pairs/triples, 8/10 bit, presets on both sides of the reference-count boundaries in both orders, asm levels, sizes) run under the usage disciplines for which the model guarantees non-interference, whose outputs must equal the solo outputs; the populations the model rejects are run too and recorded as findings.",
         note="Races that do not change an output are only visible in the model (no TSan run); the populations the model shows to interfere are recorded findings and the corresponding real groups crash as predicted.", design="4 (C17)"),
     "C18": dict(category="exploration",
         technique="trace validation against Bitstream.tla (QOK) of base_q_idx in every frame header read by the independent parser; expectations from the configuration only",
